@@ -40,13 +40,18 @@ def bodies(rng):
         ("unpack", "local t={} for i=1,%d do t[i]=i end emit(select('#',table.unpack(t))) emit(math.max(table.unpack(t)))" % (n + 1)),
         ("utf8", "local s=utf8.char(%d,228,8364,66) emit(#s, utf8.len(s)) for p,c in utf8.codes(s) do emit(p,c) end" % (65 + m)),
         ("pack", "local s=string.pack('<i4 z s2',%d,'hey','you') emit(#s) emit(string.unpack('<i4 z s2',s))" % n),
+        # bodies that end by raising an error (value of any type), possibly after some work
+        ("err_str", "for i=1,%d do emit(i) end error('boom')" % m),
+        ("err_tab", "local s=0 for i=1,%d do s=s+i end emit(s) error({code=s})" % n),
+        ("err_deep", "local function f(n) if n==0 then error('deep',2) end emit(n) f(n-1) end f(%d)" % m),
+        ("err_arith", "for i=1,%d do emit(i) end local x=nil emit(x+1)" % k),
     ]
     return fam
 
 
 # constructs that must NOT be able to intercept a termination
 WRAPS = ["plain", "pcall", "pcall_loop", "xpcall", "coroutine", "close", "pcall_in_coro", "nested_pcall",
-         "close_in_coro", "gc_guard"]
+         "close_in_coro", "close_work", "close_work_pcall", "gc_guard"]
 # explicit child contexts ARE boundaries: the child is killed, the parent goes on with what is left
 WRAPS_EXPLICIT = ["callctx", "close_in_callctx"]
 
@@ -80,6 +85,11 @@ def wrap(kind, body):
     if kind == "close_in_callctx":
         return ("local c=runtime.callcontext({},function() local g<close> = setmetatable({},{__close=function(_,e) emit('guard-closed',e) end}) "
                 "%s end) emit('after-callctx',c.status)" % body)
+    if kind == "close_work":
+        # the handler does real work: it must be metered like everything else
+        return ("do local g<close> = setmetatable({},{__close=function(_,e) local n=0 for i=1,300 do n=n+i end emit('guard-closed',n) end}) %s end emit('after-scope')" % body)
+    if kind == "close_work_pcall":
+        return ("local ok,e=pcall(function() local g<close> = setmetatable({},{__close=function(_,e) local n=0 for i=1,300 do n=n+i end emit('guard-closed',n) end}) %s end) emit('after-pcall',ok,type(e))" % body)
     if kind == "gc_guard":
         return ("setmetatable({},{__gc=function() emit('gc-ran') end}) %s collectgarbage() emit('after-gc')" % body)
     raise ValueError(kind)
